@@ -853,7 +853,22 @@ impl Program {
                 _ => false,
             };
         }
+        fn unpack_nested(c: &mut Comp, removed: &mut usize) {
+            for f in c.fields.iter_mut() {
+                if let FieldTy::Inline(ic) = &mut f.ty {
+                    if ic.packed {
+                        ic.packed = false;
+                        *removed += 1;
+                    }
+                    unpack_nested(ic, removed);
+                }
+            }
+        }
         fn strip(c: &mut Comp, in_packed: bool, aligned: &[bool], removed: &mut usize) {
+            // the pragma also governs structs defined inside the region
+            if c.pragma_pack.map(|n| n > 1).unwrap_or(false) {
+                unpack_nested(c, removed);
+            }
             let packed_here = in_packed || c.packed || c.pragma_pack.is_some();
             // known finding (C02): `__attribute__((packed))` inside `#pragma pack(N)`, N > 1, is
             // emitted as repr(packed(N)) although the members are byte-packed
